@@ -72,6 +72,7 @@ def run(ctx):
     r9_kwargs_type(ctx)
     c05.seed_truthiness(ctx, "C15.R10")
     r11_arm_agreement(ctx, ctx.fn(SAF, "SafeLearner._parse_pred"))
+    r12_fresh_wrapper(ctx)
 
 
 def _is_identity_any(e, actions_name):
@@ -220,6 +221,26 @@ def r11_arm_agreement(ctx, pp, rule="C15.R11"):
         for d in draws:
             ok = len(d.args) == 3 and unparse(d.args[1]) == "actions" and isinstance(d.args[2], ast.Name)
             ctx.ob(rule, SAF, "SafeLearner._parse_pred", d, "row-major PMF: row i draws from pred[i]", ok, stmt="row PMF direct")
+
+
+def r12_fresh_wrapper(ctx):
+    ctx.rule("C15.R12", "what a wrapper has learnt about the answer layout (call strategy, batch order, kwargs flag, format, cached action list) describes the calls made "
+                        "through THAT wrapper: SafeLearner.__init__ starts every one of these fields empty, also when it is handed an already wrapped learner")
+    init = ctx.fn(SAF, "SafeLearner.__init__")
+    fields = {"_method": ("{}", "dict()"), "_pred_kwargs": ("None",), "_pred_batch": ("None",), "_pred_format": ("None",), "_prev_actions": ("None",), "_safe_actions": ("None",)}
+    seen = {}
+    for x in walk_shallow(init):
+        if isinstance(x, ast.Assign):
+            for t in x.targets:
+                if is_self_attr(t) and t.attr in fields:
+                    seen.setdefault(t.attr, []).append(x)
+    ctx.floor("C15.R12", "layout fields initialised in SafeLearner.__init__", len(seen), 4)
+    for f, sts in sorted(seen.items()):
+        ok = all(unparse(st.value) in fields[f] for st in sts)
+        ctx.ob("C15.R12", SAF, "SafeLearner.__init__", sts[0], f"self.{f} starts empty in every wrapper", ok, detail={"initial value": [unparse(st.value) for st in sts]}, stmt=f"self.{f} initial")
+    lr = [x for x in walk_shallow(init) if isinstance(x, ast.Assign) and any(is_self_attr(t, "learner") for t in x.targets)]
+    ok = len(lr) == 1 and isinstance(lr[0].value, ast.IfExp) and ".learner" in unparse(lr[0].value)
+    ctx.ob("C15.R12", SAF, "SafeLearner.__init__", lr[0] if lr else init, "an already wrapped learner is unwrapped to its inner learner (no wrapper around a wrapper)", ok, stmt="unwrap nested wrapper")
 
 
 def r7_probe_marked(ctx):
@@ -455,6 +476,7 @@ def _body_of(st):
 
 
 CONTROLS = [
+    ("re-wrapping inherits the probed layout", SAF, M.replace_stmt("SafeLearner.__init__", M.simple_has("self._pred_batch = None"), "self._pred_batch = learner._pred_batch if isinstance(learner, SafeLearner) else None"), "C15.R12"),
     ("column arm keeps the (payload, kwargs) wrapper", SAF, M.replace_expr("SafeLearner._parse_pred", "(pred[0] if len(pred) == 2 else pred[:-1]) if self._pred_kwargs else pred", "pred[:-1] if self._pred_kwargs else pred"), "C15.R11"),
     ("column PMF not transposed", SAF, M.replace_expr("SafeLearner._parse_pred", "map(self._rng.choicew, actions, zip(*pred))", "map(self._rng.choicew, actions, pred)"), "C15.R11"),
     ("identity test dropped before the PMF look-alike", SAF, M.delete_stmt("SafeLearner.pred_format", M.text_has("if any((std_pred[0] is action for action in actions)): return 'AX'")), "C15.R8"),
